@@ -38,6 +38,8 @@ def run(ctx, chk, tier="quick"):
     )
     chk.assumptions = ["SQLite enforces PRIMARY KEY / UNIQUE whatever the foreign_keys pragma",
                        "totality in general (numeric exceptions, degenerate one-sample stretches) is not decided"]
+    from .c04 import extra_threshold_arguments
+    extra_threshold_arguments(ctx, chk, "C01.O7")
     from ..sqlrules import conflict_clauses as _conflict_clauses
     _conflict_clauses(ctx, chk, "C01.O4", ("classify",), "classify", 'the key collision that refuses a second pairing for the same storm or rise (and a second classification of the same file) is resolved silently: rows of an earlier run stay beside the new ones')
     mod = ctx.repo.module("classify")
